@@ -2,7 +2,7 @@
    byte strings stay the extracted inductive datatypes. *)
 Require Extraction.
 Require Import ExtrOcamlBasic.
-From GP Require Import Bytes Generated Cli FsProto Discover Section Meta PosMap Tree Match Replace FileEngine Program Augment Comments.
+From GP Require Import Bytes Generated Cli FsProto Discover Section Meta PosMap Tree Match Replace FileEngine Program Augment Comments AugmentShape.
 
 Extraction "gpmodel.ml"
   check_generated_code
@@ -12,5 +12,5 @@ Extraction "gpmodel.ml"
   Section.split split_patch to_bytes
   parse_meta compile_meta lookup_var meta_position
   run_changes connect_dots change_assoc mtch_node inst_node eqvb
-  augment Augment.find
+  augment Augment.find augs_okb wfb
   changed_intervals cleanup run_steps lines_to_merge.
